@@ -49,7 +49,7 @@ type IndexColumn struct {
 
 func newSchema(table string, master []sqliteMaster) (*Schema, error) {
 	var createSQL string
-	n := strings.ToLower(table)
+	n := lowerASCII(table)
 	for _, m := range master {
 		if m.typ == "table" && m.name == n {
 			createSQL = m.sql
@@ -228,7 +228,7 @@ func newCreateTable(ct sql.CreateTableStmt) (*Schema, error) {
 // `n TEXT DEFAULT 7` reads as '7', `n INT DEFAULT '12'` as 12.
 // See https://sqlite.org/datatype3.html chapter 3, "Type Affinity".
 func defaultValue(typ string, def interface{}) interface{} {
-	t := strings.ToUpper(typ)
+	t := upperASCII(typ)
 	switch {
 	case strings.Contains(t, "INT"):
 		return numericAffinity(def, false)
@@ -318,10 +318,10 @@ func sameIndexColumns(a, b []IndexColumn) bool {
 		if c == "" {
 			return DefaultCollate
 		}
-		return strings.ToLower(c)
+		return lowerASCII(c)
 	}
 	for i := range a {
-		if !strings.EqualFold(a[i].Column, b[i].Column) ||
+		if !equalFoldASCII(a[i].Column, b[i].Column) ||
 			collate(a[i].Collate) != collate(b[i].Collate) {
 			return false
 		}
@@ -362,9 +362,9 @@ func (st *Schema) toIndexColumns(ci []sql.IndexedColumn) []IndexColumn {
 
 // Returns the index of the named column, or -1.
 func (st *Schema) Column(name string) int {
-	u := strings.ToLower(name)
+	u := lowerASCII(name)
 	for i, col := range st.Columns {
-		if strings.ToLower(col.Column) == u {
+		if lowerASCII(col.Column) == u {
 			return i
 		}
 	}
@@ -381,9 +381,9 @@ func (st *Schema) column(name string) *TableColumn {
 
 // NamedIndex returns the index with the name (case insensitive)
 func (st *Schema) NamedIndex(name string) *SchemaIndex {
-	u := strings.ToUpper(name)
+	u := upperASCII(name)
 	for i, ind := range st.Indexes {
-		if strings.ToUpper(ind.Index) == u {
+		if upperASCII(ind.Index) == u {
 			return &st.Indexes[i]
 		}
 	}
@@ -392,9 +392,9 @@ func (st *Schema) NamedIndex(name string) *SchemaIndex {
 
 // Returns the index of the named column, or -1.
 func (si *SchemaIndex) Column(name string) int {
-	u := strings.ToUpper(name)
+	u := upperASCII(name)
 	for i, col := range si.Columns {
-		if strings.ToUpper(col.Column) == u {
+		if upperASCII(col.Column) == u {
 			return i
 		}
 	}
@@ -414,7 +414,7 @@ func (si *SchemaIndex) Column(name string) int {
 // all values will be null.
 // See https://sqlite.org/lang_createtable.html#rowid
 func isRowid(tableConstraint bool, typ string, dir sql.SortOrder) bool {
-	if strings.ToUpper(typ) != "INTEGER" {
+	if upperASCII(typ) != "INTEGER" {
 		return false
 	}
 	return tableConstraint || dir == sql.Asc
